@@ -38,19 +38,29 @@ Init == l = 1 /\ meta = [dense |-> FALSE, collapse |-> FALSE, shape |-> [k |-> "
 
 Shrunk(cb, ca) == Len(cb) = Len(ca) /\ \E i \in 1..Len(cb) : ca[i] < cb[i]
 
-PushVerdict(e, sl) ==
-  IF e.panic THEN <<"C01", "push-panicked">>
-  ELSE IF e.read_err # "" THEN <<"C01", "read-failed">>
-  ELSE IF e.read_s # e.v_s THEN <<"C01", "read-differs">>
-  ELSE IF ~e.stable THEN <<"C02", "earlier-read-changed">>
-  ELSE IF e.n_before # sl.n THEN <<"C01", "live-count-differs">>
-  ELSE IF meta.dense /\ e.idx_num # sl.n THEN <<"C12", "index-not-dense">>
-  ELSE IF meta.collapse /\ sl.has /\ Equal(meta.shape, e.v, sl.last) /\ ~e.same_as_prev THEN <<"C11", "not-collapsed">>
-  ELSE IF meta.collapse /\ e.same_as_prev /\ ~(sl.has /\ Equal(meta.shape, e.v, sl.last)) THEN <<"C11", "collapsed-unequal">>
-  ELSE IF meta.collapse /\ e.same_as_prev /\ e.used_after # e.used_before THEN <<"C11", "stored-despite-equal">>
-  ELSE IF ~e.pairs_ok THEN <<"C18", "used-exceeds-capacity">>
-  ELSE IF e.used_after < e.used_before THEN <<"C18", "used-decreased-on-push">>
-  ELSE <<"", "ok">>
+\* every check a push fails, as <<property, reason>> pairs (a wrong read must not hide a changed
+\* earlier item: they belong to different properties)
+PushVerdicts(e, sl) ==
+  IF e.panic THEN <<<<"C01", "push-panicked">>>>
+  ELSE
+    (IF e.read_err # "" THEN <<<<"C01", "read-failed">>>>
+     ELSE IF e.read_s # e.v_s THEN <<<<"C01", "read-differs">>>> ELSE <<>>)
+    \o (IF ~e.stable THEN <<<<"C02", "earlier-read-changed">>>> ELSE <<>>)
+    \o (IF e.n_before # sl.n THEN <<<<"C01", "live-count-differs">>>> ELSE <<>>)
+    \o (IF meta.dense /\ e.idx_num # sl.n THEN <<<<"C12", "index-not-dense">>>> ELSE <<>>)
+    \o (IF meta.collapse /\ sl.has /\ Equal(meta.shape, e.v, sl.last) /\ ~e.same_as_prev
+        THEN <<<<"C11", "not-collapsed">>>> ELSE <<>>)
+    \o (IF meta.collapse /\ e.same_as_prev /\ ~(sl.has /\ Equal(meta.shape, e.v, sl.last))
+        THEN <<<<"C11", "collapsed-unequal">>>> ELSE <<>>)
+    \o (IF meta.collapse /\ e.same_as_prev /\ e.used_after # e.used_before
+        THEN <<<<"C11", "stored-despite-equal">>>> ELSE <<>>)
+    \o (IF ~e.pairs_ok THEN <<<<"C18", "used-exceeds-capacity">>>> ELSE <<>>)
+    \o (IF e.used_after < e.used_before THEN <<<<"C18", "used-decreased-on-push">>>> ELSE <<>>)
+
+RECURSIVE ErrAll(_, _, _)
+ErrAll(e, vs, acc) == IF vs = <<>> THEN acc
+                      ELSE ErrAll(e, Tail(vs), IF PrintT(<<"ERR", ToJson([line |-> l, run |-> e.run, why |-> Head(vs)[2], prop |-> Head(vs)[1]])>>)
+                                                THEN acc + 1 ELSE acc)
 
 Step(e) ==
   CASE e.ev = "reset" ->
@@ -61,13 +71,13 @@ Step(e) ==
     [] skip -> UNCHANGED <<meta, slots, skip, errs>>
     [] e.ev = "push" ->
          LET sl == slots[e.s]
-             vd == PushVerdict(e, sl)
-         IN  IF vd[2] = "ok"
+             vds == PushVerdicts(e, sl)
+         IN  IF vds = <<>>
              THEN /\ slots' = [slots EXCEPT ![e.s] = [n |-> sl.n + 1, has |-> meta.collapse,
                                                       last |-> IF meta.collapse THEN e.v ELSE 0, dead |-> FALSE,
                                                       items |-> <<>>]]
                   /\ UNCHANGED <<meta, skip, errs>>
-             ELSE errs' = Err(e, vd[1], vd[2]) /\ skip' = TRUE /\ UNCHANGED <<meta, slots>>
+             ELSE errs' = ErrAll(e, vds, errs) /\ skip' = TRUE /\ UNCHANGED <<meta, slots>>
     [] e.ev = "stack_copy" ->
          \* C03 for FlatStacks over index values no bounded model reaches: the stack is the sequence of copies
          LET sl == slots[e.s]
